@@ -6,7 +6,8 @@ roles give access to the unit and whose scope selects the unit, and the row is n
 notification is about; no row is posted twice in any database reachable through the repository operations.
 Tie half: real `WebPushRepository` on in-memory SQLite + real `WebPushPublisher.publish_message` with a fake
 `_post_webpush`, vs the model, on generated histories of preference saves / subscriptions / deletions / publishes.
-Oracle: entitlement computed from the property text over the rows actually in the database.
+Oracle: the subscriptions are derived from the history (each subscribe call of user u with endpoint e), entitlement from
+the property text; the (user, endpoint) pairs handed to the sender must be exactly the entitled subscriptions.
 """
 from __future__ import annotations
 
@@ -30,7 +31,7 @@ META = dict(
     level_note="Code as it is (no repair needed). `topics.contains(topic)` is SQL LIKE on the JSON text; it is modelled as "
                "list membership and that is validated on every run against the real repository for all 1- and 2-element "
                "lists of NotificationTopic values (a LIKE window cannot span more than two names); topics outside the enum "
-               "cannot be stored through the API. Two rows with the same endpoint are two subscriptions. Trusted: Lean "
+               "cannot be stored through the API. Every subscribe call is a subscription (user, endpoint); the same endpoint posted twice or by two users gives two (the oracle derives them from the history, not from the table). Trusted: Lean "
                "kernel (+ propext/Classical.choice/Quot.sound), the harness, SQLAlchemy/SQLite (IN, rowid allocation: "
                "differential only). Encryption and the HTTP post are replaced by a recording sender.",
     technique="Lean 4 proof (membership characterisation of the three scope lists + SQL IN as filter; sublist argument "
@@ -49,7 +50,8 @@ NEW_CONTRIBUTOR = 6
 
 # A case: {"ops": [...]}
 #   ["pref", user, [roles], scope(0 access|1 contributed|2 specific), [topics], [units]]
-#   ["sub", user]   ["del", row_id]
+#   ["sub", user, endpoint]   (endpoint = small int; the same endpoint may be posted by several users / several times;
+#                              ["sub", user] = an endpoint of its own)      ["del", row_id]
 #   ["pub", topic, unit_id, [required roles], [contributor ids or None], contributor_id|None, configured, timestamp|None]
 #   ["topicprefs", topic]
 
@@ -106,9 +108,20 @@ def _unum(s: str) -> int:
     return int(s[4:]) if s.startswith("user") and s[4:].isdigit() else 10 ** 6
 
 
+def endpoint_of(op, n: int) -> int:
+    """Endpoint of a subscribe op (n = its position in the history)."""
+    return op[2] if len(op) > 2 else 1000 + n
+
+
+def _epnum(url: str) -> int:
+    tail = str(url).rstrip("/").rsplit("/ep", 1)[-1]
+    return int(tail) if tail.isdigit() else 10 ** 6
+
+
 def execute(case):
-    """Runs the history on the real code. Per op: ("ok",) | ("id", n) | ("U", [users]) |
-    ("P", [posted row ids in call order], rows [(id, user)] in the table at that moment)."""
+    """Runs the history on the real code. Per op: ("ok",) | ("id", n) | ("U", [users]) | ("del", (user, endpoint)|None) |
+    ("P", [posted row ids in call order], rows [(id, user)] in the table at that moment,
+          [(user, endpoint) of every subscription object handed to the sender])."""
     import openpectus.aggregator.data.models as DMdl
     import openpectus.aggregator.models as Mdl
     import openpectus.aggregator.webpush_publisher as wpp
@@ -129,9 +142,11 @@ def execute(case):
     _db_cases += 1
     publisher = object.__new__(wpp.WebPushPublisher)     # no key files, no VAPID set-up
     posted: list[int] = []
+    posted_pairs: list[tuple[int, int]] = []
 
     async def fake_post(subscription, _repo, _notification):
         posted.append(subscription.id)
+        posted_pairs.append((_unum(subscription.user_id), _epnum(subscription.endpoint)))
 
     publisher._post_webpush = fake_post                  # the fake sender
     obs = []
@@ -156,8 +171,9 @@ def execute(case):
                     title="t", timestamp=ts,
                     data=Mdl.WebPushData(process_unit_id=f"E{uid}", contributor_id=None if cid is None else f"user{cid}"))
                 posted.clear()
+                posted_pairs.clear()
                 _run(publisher.publish_message(notification, topics[topic], unit))
-                obs.append(("P", list(posted), rows))
+                obs.append(("P", list(posted), rows, list(posted_pairs)))
                 continue
             with database.create_scope():
                 s = database.scoped_session()
@@ -169,14 +185,16 @@ def execute(case):
                     obs.append(("ok",))
                 elif k == "sub":
                     repo.store_subscription(WebPushSubscription(
-                        endpoint=AnyHttpUrl(f"https://push.example/{op[1]}/{n % 2}"),
+                        endpoint=AnyHttpUrl(f"https://push.example/ep{endpoint_of(op, n)}"),
                         keys=WebPushKeys(auth="a", p256dh="p")), f"user{op[1]}")
                     obs.append(("id", max(r.id for r in s.scalars(select(DMdl.WebPushSubscription)).all())))
                 elif k == "del":
                     row = s.get(DMdl.WebPushSubscription, op[1])
+                    gone = None
                     if row is not None:
+                        gone = (_unum(row.user_id), _epnum(row.endpoint))
                         repo.delete_subscription(row)
-                    obs.append(("ok",))
+                    obs.append(("del", gone))
                 elif k == "topicprefs":
                     obs.append(("U", sorted(_unum(p.user_id) for p in
                                             repo.get_notification_preferences_for_topic(topics[op[1]]))))
@@ -198,7 +216,7 @@ def impl_lines(case) -> list[str]:
     _OBS[id(case)] = obs
     out = []
     for o in obs:
-        if o[0] == "ok":
+        if o[0] in ("ok", "del"):
             out.append("ok")
         elif o[0] == "id":
             out.append(f"id={o[1]}")
@@ -210,20 +228,31 @@ def impl_lines(case) -> list[str]:
 
 
 # ---------------------------------------------------------------------------------------------------------
-# property oracle: entitlement straight from the property text, over the rows that exist in the table
+# property oracle: the subscriptions are those made in the history (every subscribe call of user u with endpoint e
+# is a subscription (u, e); posting twice makes two), entitlement is computed straight from the property text, and the
+# (user, endpoint) pairs handed to the sender are compared with the entitled subscriptions.
 
 def oracle(case) -> list[Failure] | None:
+    from collections import Counter
     obs = _OBS.get(id(case)) or execute(case)
     prefs: dict[int, dict] = {}
+    subs: list[tuple[int, int]] = []          # subscriptions made and not deleted: (user, endpoint), with multiplicity
     found: dict[str, Failure] = {}
     for i, (op, o) in enumerate(zip(case["ops"], obs)):
         if op[0] == "pref":
             prefs[op[1]] = {"roles": set(op[2]), "scope": op[3], "topics": set(op[4]), "units": set(op[5])}
             continue
+        if op[0] == "sub":
+            subs.append((op[1], endpoint_of(op, i)))
+            continue
+        if op[0] == "del":
+            if o[0] == "del" and o[1] is not None and tuple(o[1]) in subs:
+                subs.remove(tuple(o[1]))     # the row that was deleted stood for this subscription
+            continue
         if op[0] != "pub":
             continue
         _, topic, uid, req, contribs, cid, conf, ts = op
-        posted, rows = o[1], dict(o[2])
+        posted_ids, pairs = o[1], [tuple(x) for x in o[3]]
         where = {"ops": case["ops"][:i + 1]}
 
         def fail(key, detail):
@@ -243,24 +272,36 @@ def oracle(case) -> list[Failure] | None:
                 return "notified-although-unit-not-listed"
             return None
 
-        for rid in set(posted):
-            if posted.count(rid) > 1:
-                fail("subscription-notified-twice", f"row {rid} posted {posted.count(rid)} times")
-            if rid not in rows:
-                fail("notified-unknown-subscription", f"row {rid} is not in the table")
-                continue
-            user = rows[rid]
+        def about(user) -> bool:
+            return topic == NEW_CONTRIBUTOR and cid is not None and user == cid
+
+        for rid in set(posted_ids):
+            if posted_ids.count(rid) > 1:
+                fail("subscription-notified-twice", f"row {rid} posted {posted_ids.count(rid)} times")
+        allowed = Counter(se for se in subs if why_not(se[0]) is None and not about(se[0]))
+        fresh = ts is None or ts == 0 or ts >= LIMIT
+        required = allowed if (conf and fresh) else Counter()
+        got = Counter(pairs)
+        for (user, ep), k in sorted((got - allowed).items()):
             w = why_not(user)
             if w:
-                fail(w, f"row {rid} of user {user}; preferences {prefs.get(user)}")
-            if topic == NEW_CONTRIBUTOR and cid is not None and user == cid:
-                fail("new-contributor-notification-sent-to-the-contributor", f"row {rid} of user {user}")
-        fresh = ts is None or ts == 0 or ts >= LIMIT
-        if conf and fresh:
-            for rid, user in rows.items():
-                if why_not(user) is None and not (topic == NEW_CONTRIBUTOR and cid is not None and user == cid) \
-                        and rid not in posted:
-                    fail("entitled-subscriber-not-notified", f"row {rid} of user {user}; preferences {prefs.get(user)}")
+                fail(w, f"endpoint {ep} notified for user {user}; preferences {prefs.get(user)}")
+            elif about(user):
+                fail("new-contributor-notification-sent-to-the-contributor", f"endpoint {ep} of user {user}")
+            elif allowed[(user, ep)] > 0:
+                fail("subscription-notified-twice",
+                     f"(user {user}, endpoint {ep}) posted {got[(user, ep)]} times for {allowed[(user, ep)]} subscription(s)")
+            elif any(e == ep and u != user for u, e in subs):
+                fail("notified-on-behalf-of-other-user",
+                     f"endpoint {ep} notified as user {user}, who has no subscription with it; it was subscribed by "
+                     f"{sorted({u for u, e in subs if e == ep})}")
+            else:
+                fail("notified-subscription-never-made", f"(user {user}, endpoint {ep}); subscriptions {sorted(subs)}")
+        for (user, ep), k in sorted((required - got).items()):
+            fail("entitled-subscription-not-notified",
+                 f"user {user} subscribed with endpoint {ep} and is entitled (preferences {prefs.get(user)}), but "
+                 f"{'only ' + str(got[(user, ep)]) + ' of ' + str(required[(user, ep)]) if got[(user, ep)] else 'no'} "
+                 f"notification went to (user {user}, endpoint {ep}); posted: {sorted(got.elements())}")
     return list(found.values()) or None
 
 
@@ -275,8 +316,23 @@ def gen_exhaustive() -> list[dict]:
             subsets, subsets, (0, 1, 2), (0, 1), (0, 1), (0, 1), (0, 1, 2)):
         topic = NEW_CONTRIBUTOR if nc else 0
         cid = None if nc == 0 else (2 if nc == 1 else 1)
-        ops = [["pref", 1, roles, scope, [topic] if sel else [3], [5] if listed else [4]], ["sub", 1],
+        ops = [["pref", 1, roles, scope, [topic] if sel else [3], [5] if listed else [4]], ["sub", 1, 1],
                ["pub", topic, 5, req, [1, 2] if contributed else [2], cid, True, FRESH]]
+        cases.append({"ops": ops})
+    return cases
+
+
+def gen_shared() -> list[dict]:
+    """Two users (1, 2) posting the SAME endpoint 7 (shared browser) in every order of 2-3 subscribe calls, each of them
+    entitled or not, with and without a later deletion of the first row."""
+    cases = []
+    orders = [o for ln in (2, 3) for o in itertools.product((1, 2), repeat=ln) if len(set(o)) == 2]
+    for order, sel1, sel2, dele in itertools.product(orders, (0, 1), (0, 1), (0, 1)):
+        ops = [["pref", 1, [], 0, [0] if sel1 else [3], []], ["pref", 2, [], 0, [0] if sel2 else [3], []]]
+        ops += [["sub", u, 7] for u in order]
+        ops.append(["pub", 0, 0, [], [], None, True, FRESH])
+        if dele:
+            ops += [["del", 1], ["pub", 0, 0, [], [], None, True, FRESH]]
         cases.append({"ops": ops})
     return cases
 
@@ -289,6 +345,12 @@ def gen_random(ctx: Check, n: int) -> list[dict]:
         hot = rng.sample(range(9), 2) + [NEW_CONTRIBUTOR]         # topics used by the publishes of this case
         ops: list[list] = []
         nsubs = 0
+        sharing = rng.random() < 0.4                             # some browsers are used by several users
+
+        def endpoint(u):
+            if sharing and rng.random() < 0.5:
+                return 90 + rng.randrange(2)
+            return 10 * u + rng.randrange(3)                      # own endpoints; re-posting the same one happens
 
         def pref(u):
             topics = sorted({t for t in range(9) if rng.random() < (0.6 if t in hot else 0.15)})
@@ -299,7 +361,7 @@ def gen_random(ctx: Check, n: int) -> list[dict]:
             if rng.random() < 0.9:
                 ops.append(pref(u))
             for _ in range(rng.choice([0, 1, 1, 2, 3])):
-                ops.append(["sub", u])
+                ops.append(["sub", u, endpoint(u)])
                 nsubs += 1
         rng.shuffle(ops)
         for _ in range(rng.randrange(2, 7)):
@@ -309,7 +371,8 @@ def gen_random(ctx: Check, n: int) -> list[dict]:
             elif k < 0.22 and nsubs:
                 ops.append(["del", rng.randrange(1, nsubs + 1)])
             elif k < 0.30:
-                ops.append(["sub", rng.randrange(nusers)])
+                u = rng.randrange(nusers)
+                ops.append(["sub", u, endpoint(u)])
                 nsubs += 1
             else:
                 topic = rng.choice(hot + hot + [rng.randrange(9)])
@@ -341,7 +404,7 @@ def gen_malformed(ctx: Check, n: int) -> list[dict]:
                 ops.append(["pref", u, sorted(rng.sample(range(3), rng.randrange(0, 4))), rng.randrange(3),
                             sorted(rng.sample(range(9), rng.choice([0, 1, 5, 9]))), sorted(rng.sample(range(4), rng.randrange(0, 3)))])
             for _ in range(rng.randrange(0, 3)):
-                ops.append(["sub", u])
+                ops.append(["sub", u, rng.randrange(3)])           # three endpoints shared by everybody
         for _ in range(rng.randrange(1, 5)):
             ts = rng.choice([FRESH, None, 0, 1, LIMIT, LIMIT - 1, LIMIT + 1, LIMIT - 60_000, FRESH + 10 ** 7])
             contribs = [rng.choice([None, 0, 1, 2, 3]) for _ in range(rng.randrange(0, 4))]
@@ -383,6 +446,15 @@ def _count(ctx: Check, case) -> None:
         ctx.count(f"posted={min(len(o[1]), 4)}{'+' if len(o[1]) >= 4 else ''}")
         if o[2] and len(o[1]) < len(o[2]):
             ctx.count("some-row-not-notified")
+    eps: dict[int, set] = {}
+    for n, o in enumerate(case["ops"]):
+        if o[0] == "sub":
+            eps.setdefault(endpoint_of(o, n), set()).add(o[1])
+    if any(len(v) > 1 for v in eps.values()):
+        ctx.count("endpoint-shared-between-users")
+    subs = [(o[1], endpoint_of(o, n)) for n, o in enumerate(case["ops"]) if o[0] == "sub"]
+    if len(set(subs)) < len(subs):
+        ctx.count("same-user-same-endpoint-twice")
     scopes = {o[3] for o in case["ops"] if o[0] == "pref"}
     for s in scopes:
         ctx.count(f"scope={['access', 'contributed', 'specific'][s]}")
@@ -391,7 +463,7 @@ def _count(ctx: Check, case) -> None:
 def run(ctx: Check) -> int:
     ctx.prove(MODULE, REQUIRED)
     corpus = [c for c in load_corpus(ctx.id) if "ops" in c]
-    small = gen_exhaustive()
+    small = gen_exhaustive() + gen_shared()
     rnd = gen_random(ctx, ctx.n(700, 15000))
     bad = gen_malformed(ctx, ctx.n(200, 4000))
     like = gen_like()
@@ -399,7 +471,9 @@ def run(ctx: Check) -> int:
                 "in-memory SQLite with a recording sender; posted row ids compared after every publish, new row ids after "
                 "every subscribe. small: ALL combinations for one user with one subscription: roles x required roles "
                 "(subsets of 2) x scope x topic selected x contributed x unit listed x (other topic | new-contributor about "
-                "someone else | about the user) = 1152. random: 1-5 users, 0-3 rows each, re-saved preferences, deletions, "
+                "someone else | about the user) = 1152; plus two users posting the SAME endpoint in every order of 2-3 subscribe "
+                "calls x entitled or not x later deletion = 64. random (40 % of the cases with endpoints shared between users, "
+                "own endpoints re-posted): 1-5 users, 0-3 rows each, re-saved preferences, deletions, "
                 "2-6 publishes. malformed: not configured, stale / boundary / zero / missing timestamps, rows without "
                 "preferences, contributors without id, deleted and unknown rows. like: every 0/1/2-element topic list x "
                 "every topic through get_notification_preferences_for_topic. Non-trivial = a publish about a unit that "
@@ -419,9 +493,10 @@ def run(ctx: Check) -> int:
                                      "reads; LIKE-vs-membership: all topic lists of length <= 2 and the 9 lists of length 8; "
                                      "multi-user histories are sampled")
     ctx.assumptions = ["preferences are written through WebPushRepository.store_notifications_preferences (topics are "
-                       "NotificationTopic values)", "a subscription = a row of WebPushSubscriptions",
+                       "NotificationTopic values)", "a subscription = one subscribe call of a user with an endpoint (the code as it is stores one row per call; the "
+                       "oracle derives the subscriptions from the history, not from the table)",
                        "time.time() inside webpush_publisher is pinned during a case"]
-    return ctx.finish(search=lambda c: c.monitor(gen_random(c, 1500) + gen_exhaustive(), oracle, impl_timeout=60.0))
+    return ctx.finish(search=lambda c: c.monitor(gen_shared() + gen_random(c, 1500) + gen_exhaustive(), oracle, impl_timeout=60.0))
 
 
 def replay(obj) -> int:
